@@ -147,7 +147,7 @@ def feature_case(src, mexe, masks, base, word, mask, name, neg):
 def sequence_case(src, idx, seed, tier):
     r = e2v.rng(seed, "c11seq", idx)
     name, opts, size = BASES[idx % len(BASES)]
-    base = mkimg.cached_fs(src, WORK, name, opts, size, 1, fill=0.3)
+    base = mkimg.cached_fs(src, WORK, name, opts, size, 1, fill=0.3, nfiles=160, index=True)
     img = os.path.join(WORK, "s_%d.img" % idx)
     shutil.copy(base, img)
     env = e2v.tool_env(src)
@@ -222,7 +222,7 @@ def run(res, replay=None):
     res.cov["partial"] = ["proved: the feature edit (which bits an accepted -O list may change, which lists are refused); the conversions themselves (checksum rewrite, inode resize, journal/quota/orphan-file creation and removal) are validated per run by the tree comparison, the independent reader and e2fsck, not modelled",
                           "mounted-filesystem restrictions cannot be exercised in the sandbox; encrypt/casefold results leave the independent reader's scope"]
     # ---- A. every feature name x {set, clear} x bases
-    bases = [mkimg.cached_fs(src, WORK, n, o, s, 1, fill=0.3) for n, o, s in (BASES[:2] + BASES[3:5] if tier == "quick" else BASES)]
+    bases = [mkimg.cached_fs(src, WORK, n, o, s, 1, fill=0.3, nfiles=160, index=True) for n, o, s in (BASES[:2] + BASES[3:5] if tier == "quick" else BASES)]
     jobs = []
     for bi, b in enumerate(bases):
         for (w, m, name) in masks["features"]:
